@@ -37,19 +37,28 @@ Proof. exact const_keyword_refuted. Qed.
 Print Assumptions C14_const_keyword_refuted.
 
 (* ---- collision rule: siblings whose converted names coincide keep their original spelling ---------------- *)
-(* for ANY case conversion that is idempotent on its image, siblings of one kind with pairwise distinct original
-   names get pairwise distinct emitted names -- provided the escape stage is injective on the names it is
-   given ([escape_ok]: no k / k_ pair for a path-segment keyword k, no '#') *)
+(* for ANY case conversion that is idempotent on the names of the scope, siblings of one kind with pairwise
+   distinct original names get pairwise distinct emitted names -- provided the escape stage is injective on the
+   names it is given ([escape_ok]: no k / k_ pair for a path-segment keyword k, no '#').  Both side conditions are
+   decidable and are evaluated by the check on every naming scope of every generated document. *)
 Theorem C14_names_injective :
-  forall (conv : kind -> string -> string),
-    (forall k s, conv k (conv k s) = conv k s) ->
-    forall cc k scope,
-      (forall x, In x scope -> s_kind x = k /\ s_tag x = None) ->
-      NoDup (map s_orig scope) ->
-      escape_ok (map (rust_name conv cc scope) scope) = true ->
-      NoDup (map (emitted conv cc scope) scope).
+  forall (conv : kind -> string -> string) cc k scope,
+    (forall x, In x scope -> s_kind x = k /\ s_tag x = None) ->
+    (forall x, In x scope -> conv (s_kind x) (conv (s_kind x) (s_orig x)) = conv (s_kind x) (s_orig x)) ->
+    NoDup (map s_orig scope) ->
+    escape_ok (map (rust_name conv cc scope) scope) = true ->
+    NoDup (map (emitted conv cc scope) scope).
 Proof. exact names_injective. Qed.
 Print Assumptions C14_names_injective.
+
+(* idempotence is necessary, and heck's conversion is not idempotent: aB -> AB -> Ab (finding F-14r) *)
+Theorem C14_names_not_idempotent_refuted :
+  NoDup (map s_orig ab_scope) /\
+  (forall x, In x ab_scope -> s_kind x = KStruct /\ s_tag x = None) /\
+  escape_ok (map (rust_name conv_heck_ab true ab_scope) ab_scope) = true /\
+  map (emitted conv_heck_ab true ab_scope) ab_scope = ["AB"; "Ab"; "AB"].
+Proof. exact names_not_idempotent_refuted. Qed.
+Print Assumptions C14_names_not_idempotent_refuted.
 
 (* the side condition is necessary: `self` beside `self_` (finding F-14c) *)
 Theorem C14_names_escape_refuted :
